@@ -1,1 +1,2 @@
 import Proofs.Props.C12
+import Proofs.Props.C13
